@@ -92,8 +92,9 @@ Check(tt) ==
   IN /\ PrintT(<<"CASE", ToJson([t |-> tt, acc |-> acc, keys |-> IF acc THEN T!StKeys(table) ELSE {}])>>)
      /\ (IF T!StParseCorrect(table) THEN TRUE ELSE PrintT(<<"DCEX", ToJson([t |-> tt])>>))
 Init == t = <<>> /\ ph = 0
+Plans == %(plans)s
 Next == \/ /\ ph = 0 /\ t = <<>> /\ ph' = 0
-           /\ \/ \E n \in 1..%(maxdefs)d : \E tt \in [1..n -> %(lo)d..%(hi)d] : t' = tt
+           /\ \/ \E p \in DOMAIN Plans : \E n \in 1..Plans[p].n : \E tt \in [1..n -> Plans[p].idx] : t' = tt
               \/ \E i \in DOMAIN Extra : t' = Extra[i]
         \/ ph = 0 /\ t # <<>> /\ Check(t) /\ ph' = 1 /\ t' = t
 ====
@@ -183,23 +184,29 @@ def norm_keys(keys):
     return sorted((tuple(e["k"]), e["v"]) for e in keys)
 
 
-def tables_level(res, wd, name, items, maxlen, maxdefs, extra, stats):
-    """One TLC enumeration: every table of <= maxdefs definitions of <= maxlen items (+ extra index tuples)."""
-    defs = all_defs(items, maxlen)
+def tables_level(res, wd, name, defs, plans, extra, stats):
+    """One TLC enumeration over the definition list `defs`: for every plan (n, idx) all tables of <= n definitions
+    taken from defs[idx] (1-based index sets), plus the `extra` index tuples."""
     mod = "MC_C12T_" + name
     with open(os.path.join(wd, mod + ".tla"), "w") as f:
-        f.write(MC_T % dict(mod=mod, defs=tla_val(defs), extra=tla_val(extra), maxdefs=maxdefs, lo=1, hi=len(defs)))
+        f.write(MC_T % dict(mod=mod, defs=tla_val(defs), extra=tla_val(extra),
+                            plans=tla_val([{"n": n, "idx": set(idx)} for n, idx in plans])))
     with open(os.path.join(wd, mod + ".cfg"), "w") as f:
         f.write(CFG_T)
     r = run_tlc(wd, mod, workers=8, timeout=1700, heap="6g")
     tlc_ok(r, mod)
     cf = os.path.join(wd, mod + ".cases.ndjson")
-    n = extract_prints(r["out"], "CASE", cf)
+    extract_prints(r["out"], "CASE", cf)
     ndcex = extract_prints(r["out"], "DCEX", os.path.join(wd, mod + ".dcex.ndjson"))
     os.remove(r["out"])
     exp = [json.loads(x) for x in open(cf)]
     os.remove(cf)
-    want = sum(len(defs) ** k for k in range(1, maxdefs + 1)) + len([e for e in extra if len(e) > maxdefs or True])
+    want = set(tuple(e) for e in extra)
+    for n, idx in plans:
+        for k in range(1, n + 1):
+            want.update(itertools.product(idx, repeat=k))
+    if set(tuple(e["t"]) for e in exp) != want:
+        raise ToolError("%s: TLC exported %d tables, expected %d" % (mod, len(exp), len(want)))
     res.states += r["distinct"] or 0
     res.transitions += r["generated"] or 0
     if ndcex:
@@ -228,20 +235,29 @@ def part1(res, tier, rng, wd):
     stats = {"tables": 0, "accepted_by_spec": 0, "accepted_by_parser": 0, "agree": 0, "trie_keys_compared": 0,
              "judged_by_tlc": 0, "rejected_unambiguous": 0, "arity_notes": 0, "trie_drift": 0}
     items = alphabet(tier)
+    small = [items[0], items[1], items[2], items[4]]          # a, b, S-a, O-(a b)
     to_judge = []
     levels = []
+    d2 = all_defs(items, 2)
+    i2 = list(range(1, len(d2) + 1))
+    isub = [i + 1 for i, d in enumerate(d2) if all(it in small for it in d)]
     if tier == "quick":
-        plan = [("l2d3", items, 2, 3, [])]
+        # every pair of definitions of <= 2 items; every triple over the 4-item sub-alphabet
+        plan = [("quick", d2, [(2, i2), (3, isub)], [],
+                 "all tables of <=2 definitions of <=2 items over the 6-item alphabet; all tables of <=3 definitions of "
+                 "<=2 items over {a, b, S-a, O-(a b)}")]
     else:
         d3 = all_defs(items, 3)
         n3 = len(d3)
         extra = [[rng.randint(1, n3), rng.randint(1, n3), rng.randint(1, n3)] for _ in range(60000)]
-        plan = [("l2d3", items, 2, 3, []), ("l3d2", items, 3, 2, extra)]
-    for name, its, maxlen, maxdefs, extra in plan:
-        tj, n, ndcex = tables_level(res, wd, name, its, maxlen, maxdefs, extra, stats)
+        plan = [("l2d3", d2, [(3, i2)], [], "all tables of <=3 definitions of <=2 items over the 6-item alphabet"),
+                ("l3d2", d3, [(2, list(range(1, n3 + 1)))], extra,
+                 "all tables of <=2 definitions of <=3 items; 60000 seeded tables of 3 definitions of <=3 items")]
+    for name, defs, plans, extra, what in plan:
+        tj, n, ndcex = tables_level(res, wd, name, defs, plans, extra, stats)
         to_judge += tj
-        levels.append({"name": name, "items": [item_text(i) for i in its], "max_items_per_definition": maxlen,
-                       "max_definitions": maxdefs, "extra_sampled_tables": len(extra), "tables": n, "model_vs_spec_cex": ndcex})
+        levels.append({"name": name, "items": [item_text(i) for i in items], "what": what,
+                       "extra_sampled_tables": len(extra), "tables": n, "model_vs_spec_cex": ndcex})
     # arity rules and larger groups: a handful of hand-listed tables, judged the same way
     big = [K(k) for k in "abcdefg"]
     special = [
